@@ -114,6 +114,15 @@ def q_reach_allow(ctx, p):
                 if v is None:
                     return dict(status="inconclusive", reason="source variable %r not found/tracked in %s" % (name, fn.name))
                 s.add(v == val)
+            for pat, val in (p.get("assume_place") or []):
+                hit = False
+                for b2 in enc.order:
+                    for k2, v2 in enc.out_state[b2].items():
+                        if k2.startswith("place:") and re.search(pat, k2) and z3.is_bool(v2) == isinstance(val, bool):
+                            s.add(v2 == val)
+                            hit = True
+                if not hit:
+                    return dict(status="inconclusive", reason="assumption place %r not found in %s" % (pat, fn.name))
             if ctx.check(s) != z3.sat:
                 return dict(status="inconclusive", reason="vacuity guard: assumptions unsatisfiable")
         scope = None
@@ -699,7 +708,75 @@ def q_bounds(ctx, p):
                 discharged=discharged, functions=functions[:40], details=details)
 
 
+def q_must_call(ctx, p):
+    """Every execution that reaches a normal return with `_0 = Ok(..)` (or any return, if
+    ok_only is false) has passed a call matching `call` (optionally with an argument matching
+    `arg`): ghost counter == 0 at the return must be unsatisfiable."""
+    funcs = ctx.funcs
+    fns = find_fn(funcs, p["fn"])
+    if len(fns) != 1:
+        return dict(status="inconclusive", reason="function pattern %r matched %d" % (p["fn"], len(fns)))
+    fn = fns[0]
+    enc = sym.Enc(fn, funcs, sym.Glob())
+    s = z3.Solver()
+    s.add(enc.extra)
+    argre = re.compile(p["arg"]) if p.get("arg") else None
+    # ghost over call sites that match callee (and argument)
+    g_out = {}
+    nsites = 0
+    for b in enc.order:
+        ps = enc.preds[b]
+        if not ps:
+            g_in = z3.IntVal(0)
+        else:
+            g_in = g_out[ps[-1]]
+            for q in reversed(ps[:-1]):
+                g_in = z3.If(z3.And(enc.reach[q], enc.edge[(q, b)]), g_out[q], g_in)
+        t = enc.blocks[b].term
+        hit = bool(t and t["kind"] == "call" and re.search(p["call"], t["callee"]) and (argre is None or any(argre.search(a) for a in t["args"])))
+        if hit:
+            nsites += 1
+        g_out[b] = g_in + 1 if hit else g_in
+    rets = []
+    for b in enc.order:
+        t = enc.blocks[b].term
+        if not t or t["kind"] != "return":
+            continue
+        rets.append(b)
+    # Ok-returns: the block (or a predecessor chain of gotos) assigns _0 = ...::Ok(
+    def assigns_ok(b, depth=0):
+        for d, rhs in enc.blocks[b].stmts:
+            if d == "_0" and re.search(r"::Ok\(|Result::<.*>::Ok", rhs):
+                return True
+        return False
+    ok_blocks = [b for b in enc.order if assigns_ok(b)]
+    if p.get("ok_only", True):
+        targets = ok_blocks
+    else:
+        targets = rets
+    if not targets:
+        return dict(status="inconclusive", reason="vacuity guard: no Ok-return found")
+    witnesses = []
+    obligations = discharged = 0
+    for b in targets:
+        obligations += 1
+        r = ctx.check(s, enc.reach[b], g_out[b] == 0)
+        if r == z3.sat:
+            witnesses.append(dict(key="%s: success without %s" % (short_fn(fn.name), p.get("call_name", p["call"])),
+                                  what="%s can return success (bb%d) on an execution that never called %s (%d such call sites in the function)" % (short_fn(fn.name), b, p.get("call_name", p["call"]), nsites)))
+        elif r == z3.unsat:
+            discharged += 1
+        else:
+            return dict(status="inconclusive", reason="solver unknown")
+    uniq = {}
+    for w in witnesses:
+        uniq.setdefault(w["key"], w)
+    return dict(status="failed" if uniq else "held", witnesses=list(uniq.values()), obligations=obligations, discharged=discharged,
+                functions=[fn.name], details=["%d success returns, %d matching call sites" % (len(targets), nsites)])
+
+
 KINDS = {
+    "must_call": q_must_call,
     "bounds": q_bounds,
     "guarded": q_guarded,
     "no_error_after": q_no_error_after,
